@@ -13,7 +13,7 @@ PROPERTY = "C01"
 RULE = (
     "Well-formed trees of every shape class (single node, chains, stars, binary, forced root degree; "
     "deep chains from a seeded bulk generator) with coordinates and radii from the full finite float32 "
-    "range (incl. +-0, subnormals, 1e38) or the dyadic lattice, types 0-255; id_offset in {0, 1, small, "
+    "range (incl. +-0, subnormals, 1e38) or the dyadic lattice, types 0-255 and codes beyond a byte / a short up to 2^31-1; id_offset in {0, 1, small, 2^24 +- few, 1e9, 2^31-1-n, "
     "10^6}; source in {False, True with/without tree.source, explicit string}; comments on/off with "
     "generated printable text (empty, whitespace-only, leading blanks, non-ASCII); source kind in "
     "{text stream, byte stream, file path}. Oracle: round trip - same n, parents, types; x,y,z,r equal "
@@ -51,6 +51,14 @@ def comment():
     ).filter(lambda s: not s.lstrip().startswith("id type") and not s.lstrip(" #").startswith("id type"))
 
 
+# the type field is an integer: the standard codes, a byte's worth of custom ones, and lab-specific codes beyond a byte
+# or a short (the tree stores int32)
+TYPE = st.one_of(st.integers(0, 7), st.integers(0, 255), st.integers(0, 255),
+                 st.sampled_from([256, 300, 1000, 32768, 65535, 65536, 2 ** 24 + 1, 2 ** 31 - 1]))
+# id offsets: any value for which every shifted id still fits the format's 32-bit ids ("max" = 2**31 - 1 - n)
+OFFSETS = [0, 1, 1, 2, 7, 1000, 10 ** 6, 10 ** 6, 2 ** 24 - 3, 2 ** 24 + 5, 10 ** 9, "max"]
+
+
 @st.composite
 def case_strategy(draw, tier):
     max_n = 20 if tier == "quick" else 120
@@ -73,11 +81,11 @@ def case_strategy(draw, tier):
              "x": [draw(co) for _ in range(n)], "y": [draw(co) for _ in range(n)],
              "z": [draw(co) for _ in range(n)],
              "r": [draw(co if regime == "full-float32" else gen_tree.radius()) for _ in range(n)],
-             "type": [draw(st.integers(0, 255)) for _ in range(n)]}
+             "type": [draw(TYPE) for _ in range(n)]}
     has_src = draw(st.booleans())
     return {
         "tree": t,
-        "id_offset": draw(st.sampled_from([0, 1, 1, 2, 7, 1000, 10 ** 6])),
+        "id_offset": draw(st.sampled_from(OFFSETS)),
         "source": draw(st.sampled_from([False, True, True, "explicit", "a file.swc", "ü"])),
         "tree_source": draw(st.sampled_from(["/data/n 1.swc", "orig"])) if has_src else "",
         "comments_on": draw(st.integers(0, 3)) > 0,
@@ -113,11 +121,17 @@ def run_case(case, ctx):
     parents = t["parents"]
     n = len(parents)
     tree = gen_tree.build_tree(t, extras=False, source=case["tree_source"], comments=list(case["comments"]))
-    kw = {"id_offset": case["id_offset"], "source": case["source"], "comments": case["comments_on"]}
+    id_offset = case["id_offset"] if case["id_offset"] != "max" else 2 ** 31 - 1 - n
+    case = dict(case, id_offset=id_offset)
+    kw = {"id_offset": id_offset, "source": case["source"], "comments": case["comments_on"]}
     depth = max(models.depth_list(parents))
     has_furc = any(len(c) >= 2 for c in models.children(parents))
     inexact = any(float(rounded32(v)) != float(np.float32(v)) for c in "xyzr" for v in t[c][:50])
-    ctx.cls("kind:" + case["kind"], "regime:" + t["regime"], f"offset:{case['id_offset']}",
+    if id_offset + n > 2 ** 24:
+        ctx.cls("ids-beyond-2^24")
+    if any(v > 255 for v in t["type"][:2000]):
+        ctx.cls("type-code-beyond-a-byte")
+    ctx.cls("kind:" + case["kind"], "regime:" + t["regime"], f"offset:{case['id_offset'] if id_offset < 2 ** 24 - 3 else 'large'}",
             "source:" + (str(case["source"]) if isinstance(case["source"], bool) else "string"),
             "comments-on" if case["comments_on"] else "comments-off")
     if n == 1:
@@ -197,5 +211,6 @@ SUBCHECKS = [
     Sub("roundtrip", case_strategy, run_case, quick=1200, thorough=12000, shards_quick=4,
         required={"kind:str": 100, "kind:bytes": 100, "kind:path": 100, "regime:full-float32": 200,
                   "offset:0": 50, "offset:1000000": 50, "source:False": 50, "source:string": 100,
-                  "single-node": 10, "blank-comment": 30, "non-ascii-comment": 20, "deep-or-large": 4}),
+                  "single-node": 10, "blank-comment": 30, "non-ascii-comment": 20, "deep-or-large": 4,
+                  "ids-beyond-2^24": 150, "type-code-beyond-a-byte": 100}),
 ]
